@@ -73,7 +73,7 @@ func constBits(v *ssa.Value) (s string, ok bool) {
 	return sb.String(), true
 }
 
-func emitGcOp(o *hxlib.Out, sp *ssa.Program, si *ssaInfo, tr *transcript, sessionOK bool) {
+func emitGcOp(o *hxlib.Out, sp *ssa.Program, si *ssaInfo, tr *hxlib.StreamTranscript, sessionOK bool) {
 	if si.HasCirc || len(sp.Inputs) != 2 {
 		o.Op("c05 skip", "unsupported")
 		o.Count("gcop_skipped")
